@@ -33,6 +33,17 @@ func newCountingFG(optimize bool, log *tickLog) *value.FunctionGenerator {
 			log.pure++
 			return st.Get(0), nil
 		}, Args: 1, IsPure: true}.SetDescription("v", "pure counting identity"))
+	// an impure host METHOD (registered on ints, strings, lists and maps): the receiver type of a method call is not known
+	// when the code is generated, so its purity has to come from the name (repair 8aa887a)
+	tickM := funcGen.Function[value.Value]{
+		Func: func(st funcGen.Stack[value.Value], cs []value.Value) (value.Value, error) {
+			s, _ := canonValue(st.Get(0))
+			log.impure = append(log.impure, "M"+s)
+			return st.Get(0), nil
+		}, Args: 1, IsPure: false}.SetMethodDescription("impure counting identity")
+	for _, id := range []value.Type{value.IntTypeId, value.StringTypeId, value.ListTypeId, value.MapTypeId} {
+		fg.RegisterMethods(id, value.MethodMap{"tickM": tickM})
+	}
 	if !optimize {
 		fg.SetOptimizer(nil)
 	}
@@ -245,9 +256,17 @@ func runC02(c *Ctx) {
 			}
 			for _, w := range wrappers {
 				cases = append(cases, ccase{fmt.Sprintf(w, body), []string{"a"}, []value.Value{value.Int(1)}, false})
-				purity++
+				// the same position filled by an impure host method call
+				cases = append(cases, ccase{fmt.Sprintf(w, strings.ReplaceAll(body, "tickI("+itoa(pos+1)+")", "("+itoa(pos+1)+").tickM()")), []string{"a"}, []value.Value{value.Int(1)}, false})
+				purity += 2
 			}
 		}
+	}
+	for _, src := range []string{"let g = v -> v.tickM(); g(1) + a", "(v -> v.tickM())(\"s\").len() + a", "let g = v -> [v, 2].tickM().size(); g(1) + g(2) + a",
+		"{k: 1}.tickM().k + a", "if true then 1 else (2).tickM()", "let h = (p, q) -> {x: p}.tickM().x + q; h(1, 2) + a", "[1, 2].map(e -> e.tickM()).sum() + a",
+		"let c = (x -> (y -> y.tickM())); c(0)(5) + a", "func g(x) x.tickM(); g(4) + a", "try (1).tickM() + [1][5] catch (2).tickM()"} {
+		cases = append(cases, ccase{src, []string{"a"}, []value.Value{value.Int(1)}, false})
+		purity++
 	}
 	c.extra["purity_sweep_programs"] = purity
 	// (1c) name-space sweep: a constant map with a closure stored in a field named like a method of maps (every
